@@ -13,6 +13,7 @@ import (
 	"fmt"
 	"io"
 	"math/big"
+	"net/http"
 	"net/http/httptest"
 	"os"
 	"strings"
@@ -28,6 +29,7 @@ import (
 
 type duckEnv struct {
 	c    *vh.Ctx
+	be   storage.Backend
 	root string
 	db   *database.DuckDB
 	app  *fiber.App
@@ -44,7 +46,7 @@ func newDuckEnv() *duckEnv {
 	qh := api.NewQueryHandler(db, be, logger, 0, 0)
 	app := fiber.New(fiber.Config{DisableStartupMessage: true})
 	qh.RegisterRoutes(app)
-	return &duckEnv{root: root, db: db, app: app}
+	return &duckEnv{root: root, db: db, app: app, be: be}
 }
 
 func (e *duckEnv) close() {
@@ -180,18 +182,25 @@ func (e *duckEnv) arrowQuery(q string) (*arrow.Schema, []arrow.Record, error) {
 	return rd.Schema(), recs, rd.Err()
 }
 
-func (e *duckEnv) post(ep, q string) (int, []byte, error) {
+func (e *duckEnv) post(ep, q string) (int, []byte, error) { return e.postOn(e.app, ep, q, nil) }
+
+// postOn: POST on a given fiber app (the long-lived one, or a fresh handler) with optional extra headers.
+func (e *duckEnv) postOn(app *fiber.App, ep, q string, hdr map[string]string) (int, []byte, error) {
 	body, _ := json.Marshal(map[string]string{"sql": q})
-	req := httptest.NewRequest("POST", ep, bytes.NewReader(body))
-	req.Header.Set("Content-Type", "application/json")
-	resp, err := e.app.Test(req, 120000)
+	mk := func() *http.Request {
+		req := httptest.NewRequest("POST", ep, bytes.NewReader(body))
+		req.Header.Set("Content-Type", "application/json")
+		for k, v := range hdr {
+			req.Header.Set(k, v)
+		}
+		return req
+	}
+	resp, err := app.Test(mk(), 120000)
 	if err != nil && strings.Contains(err.Error(), "malformed HTTP") && e.c != nil {
 		// the response HEAD itself is corrupted: respHeader.Set(trailer) in the Arrow stream-writer goroutine races
 		// with fasthttp serialising the head into the same ResponseHeader.bufKV buffer
 		e.c.Fail("ipc-malformed:http-trailer-race", "HTTP response head corrupted: "+err.Error(), "endpoint="+ep+" source="+short(q, 600)+" (timing dependent: repeat tiny Arrow queries)")
-		req = httptest.NewRequest("POST", ep, bytes.NewReader(body))
-		req.Header.Set("Content-Type", "application/json")
-		resp, err = e.app.Test(req, 120000)
+		resp, err = app.Test(mk(), 120000)
 	}
 	if err != nil {
 		return 0, nil, err
@@ -201,10 +210,11 @@ func (e *duckEnv) post(ep, q string) (int, []byte, error) {
 }
 
 // sqlTextTruth: DuckDB's own text for wide integer / decimal columns (database/sql, no Arrow involved).
-func (e *duckEnv) sqlTextTruth(q string, ncols int) ([][]*string, error) {
+func (e *duckEnv) sqlTextTruth(q string, names []string) ([][]*string, error) {
+	ncols := len(names)
 	parts := make([]string, ncols)
 	for j := range parts {
-		parts[j] = fmt.Sprintf("CAST(c%d AS VARCHAR)", j)
+		parts[j] = fmt.Sprintf("CAST(\"%s\" AS VARCHAR)", names[j])
 	}
 	rows, err := e.db.DB().Query("SELECT " + strings.Join(parts, ", ") + " FROM (" + q + ")")
 	if err != nil {
@@ -232,7 +242,7 @@ func duckCase(c *vh.Ctx, m *monitor, e *duckEnv, r *vh.Rand, exprs []sqlExpr, n 
 	parts := make([]string, len(exprs))
 	for j, x := range exprs {
 		keys[j] = x.key
-		parts[j] = fmt.Sprintf("%s AS c%d", nullWrap(x.f(r.Intn(1000)), nullMode, n), j)
+		parts[j] = fmt.Sprintf("%s AS %s", nullWrap(x.f(r.Intn(1000)), nullMode, n), alias(r, j))
 	}
 	q := fmt.Sprintf("SELECT %s FROM range(%d) t(i)", strings.Join(parts, ", "), n)
 	c.Tag("duck:" + tag)
@@ -263,7 +273,7 @@ func duckCase(c *vh.Ctx, m *monitor, e *duckEnv, r *vh.Rand, exprs []sqlExpr, n 
 		}
 	}
 	if wide {
-		if txt, err := e.sqlTextTruth(q, len(exprs)); err == nil && len(txt) == rs.nrows {
+		if txt, err := e.sqlTextTruth(q, schemaNames(schema)); err == nil && len(txt) == rs.nrows {
 			for j, ct := range rs.cols {
 				ct.key = keys[j]
 				if !(ct.key == "hugeint" || ct.key == "uhugeint" || ct.key == "decimal" || ct.key == "uint64" || ct.key == "int64") {
@@ -329,7 +339,7 @@ func duckCase(c *vh.Ctx, m *monitor, e *duckEnv, r *vh.Rand, exprs []sqlExpr, n 
 		c.Fail("ipc-malformed:http", fmt.Sprintf("status %d err %v body %s", st, err, short(string(body), 200)), "format=ipc source="+short(q, 600))
 	} else {
 		sc, rr, derr := decodeIPC(body)
-		m.checkIPC(rs, sc, rr, derr, rs.nrows)
+		m.checkIPC("ipc", rs, sc, rr, derr, rs.nrows)
 		for _, x := range rr {
 			x.Release()
 		}
@@ -363,4 +373,185 @@ func duckCase(c *vh.Ctx, m *monitor, e *duckEnv, r *vh.Rand, exprs []sqlExpr, n 
 			c.Tag("rowlimit:duck")
 		}
 	}
+}
+
+var aliasStems = []string{"c", "v", "bytes_in", "bytes_out", "host", "total", "avg_cpu", "t", "value", "n", "usage_idle", "region", "cnt", "x"}
+
+// alias: a column alias that differs between queries (result shape caches must not leak names) but is unique
+// inside one query (the index is part of it).
+func alias(r *vh.Rand, j int) string { return fmt.Sprintf("%s_%d", vh.Pick(r, aliasStems), j) }
+
+func schemaNames(s *arrow.Schema) []string {
+	out := make([]string, s.NumFields())
+	for j := range out {
+		out[j] = s.Field(j).Name
+	}
+	return out
+}
+
+// allFormats runs one SELECT through the three HTTP endpoints of `app` and checks each response against the
+// Arrow records DuckDB produces for that very query (column names = the query's own aliases). hdr = extra
+// headers for the Arrow endpoint; ipcName = format label used in the Arrow monitor keys.
+func allFormats(c *vh.Ctx, m *monitor, e *duckEnv, app *fiber.App, q string, keys []string, hdr map[string]string, ipcName string) (jd, md decoded, ipcCanon string, ok bool) {
+	schema, recs, err := e.arrowQuery(q)
+	if err != nil {
+		c.Tag("duck:query-error")
+		c.Extra["duck_query_error"] = short(q, 300) + " => " + short(err.Error(), 300)
+		return
+	}
+	rs := newResultSet(q, schema, recs, keys)
+	defer rs.release()
+	c.Case(q+"|"+ipcName, rs.nrows > 0)
+	st, body, err := e.postOn(app, "/api/v1/query", q, nil)
+	if err != nil || st != 200 {
+		c.Fail("json-malformed:http", fmt.Sprintf("status %d err %v body %s", st, err, short(string(body), 200)), "format=json source="+short(q, 600))
+	} else {
+		jd = decodeJSON(body)
+		m.checkDecoded("json", rs, jd, rs.nrows, checkJSON)
+	}
+	st, body, err = e.postOn(app, "/api/v1/query/msgpack", q, nil)
+	if err != nil || st != 200 {
+		c.Fail("msgpack-malformed:http", fmt.Sprintf("status %d err %v body %s", st, err, short(string(body), 200)), "format=msgpack source="+short(q, 600))
+	} else {
+		md = decodeMsgPack(body)
+		m.checkDecoded("msgpack", rs, md, rs.nrows, checkMP)
+	}
+	st, body, err = e.postOn(app, "/api/v1/query/arrow", q, hdr)
+	if err != nil || st != 200 {
+		c.Fail(ipcName+"-malformed:http", fmt.Sprintf("status %d err %v body %s", st, err, short(string(body), 200)), "format="+ipcName+" source="+short(q, 600))
+	} else {
+		sc, rr, derr := decodeIPC(body)
+		m.checkIPC(ipcName, rs, sc, rr, derr, rs.nrows)
+		var sb strings.Builder
+		if sc != nil {
+			sb.WriteString(strings.Join(schemaNames(sc), ","))
+		}
+		for _, x := range rr {
+			for j := 0; j < int(x.NumCols()); j++ {
+				for k := 0; k < x.Column(j).Len(); k++ {
+					sb.WriteString(canon(truthCell(x.Column(j), k)))
+					sb.WriteByte(';')
+				}
+			}
+			x.Release()
+		}
+		ipcCanon = sb.String()
+	}
+	return jd, md, ipcCanon, true
+}
+
+// decimal-producing column kinds whose values survive arc's int64 / float64 normalisation exactly (the lossy and
+// overflowing ones are known findings with their own keys and are exercised by duckCase)
+var safeDecimalExprs = []sqlExpr{
+	{"decimal", func(k int) string { return fmt.Sprintf("sum((%s %% 1000)::INTEGER) OVER (ORDER BY i)", h(k)) }},
+	{"hugeint", func(k int) string { return fmt.Sprintf("((%s >> 2)::HUGEINT * (CASE WHEN i %% 2 = 0 THEN 1 ELSE -1 END))", h(k)) }},
+	{"decimal", func(k int) string { return fmt.Sprintf("((%s %% 1000000)::BIGINT)::DECIMAL(9,0)", h(k)) }},
+	{"decimal", func(k int) string { return fmt.Sprintf("(((%s %% 2000001)::BIGINT - 1000000) * 0.001)::DECIMAL(12,3)", h(k)) }},
+	{"float64", func(k int) string { return fmt.Sprintf("avg((%s %% 1000)::DECIMAL(9,2)) OVER (ORDER BY i ROWS 3 PRECEDING)", h(k)) }},
+	{"int64", func(k int) string { return fmt.Sprintf("(%s >> 3)::BIGINT", h(k)) }},
+}
+
+var lowCardExprs = []sqlExpr{
+	{"utf8", func(k int) string { return fmt.Sprintf("'host_' || (i %% %d)::VARCHAR", 2+k%9) }},
+	{"utf8", func(k int) string { return fmt.Sprintf("CASE WHEN i %% 11 = 3 THEN NULL ELSE 'r\"' || (%s %% 5)::VARCHAR END", h(k)) }},
+	{"utf8", func(k int) string { return "CASE i % 3 WHEN 0 THEN 'eu-west' WHEN 1 THEN 'é' ELSE '' END" }},
+}
+
+// dictCase: the Arrow endpoint with and without the opt-in x-arc-arrow-dictionary header, on result sets whose
+// first batch has >= 256 rows, low-cardinality string columns and each decimal-producing column kind; header-on,
+// header-off and JSON/msgpack must all carry the query's own names, row count and cells.
+func dictCase(c *vh.Ctx, m *monitor, e *duckEnv, r *vh.Rand, i int) {
+	n := vh.Pick(r, []int{300, 256, 5000, 2049})
+	var xs []sqlExpr
+	xs = append(xs, lowCardExprs[i%len(lowCardExprs)], safeDecimalExprs[i%len(safeDecimalExprs)])
+	for k := r.Intn(3); k > 0; k-- {
+		if r.Bool() {
+			xs = append(xs, vh.Pick(r, safeDecimalExprs))
+		} else {
+			xs = append(xs, vh.Pick(r, lowCardExprs))
+		}
+	}
+	if r.Bool() { // column order must not matter
+		xs[0], xs[1] = xs[1], xs[0]
+	}
+	keys := make([]string, len(xs))
+	parts := make([]string, len(xs))
+	for j, x := range xs {
+		keys[j] = x.key
+		parts[j] = fmt.Sprintf("%s AS %s", x.f(r.Intn(1000)), alias(r, j))
+	}
+	q := fmt.Sprintf("SELECT %s FROM range(%d) t(i)", strings.Join(parts, ", "), n)
+	_, _, off, ok := allFormats(c, m, e, e.app, q, keys, nil, "ipc")
+	if !ok {
+		return
+	}
+	_, _, on, _ := allFormats(c, m, e, e.app, q, keys, map[string]string{"x-arc-arrow-dictionary": "true"}, "ipc-dict")
+	if on != off {
+		c.Fail("ipc-dict-differs-from-plain", "Arrow response with x-arc-arrow-dictionary decodes to other names/cells than without it", "format=ipc-dict header=x-arc-arrow-dictionary:true source="+short(q, 600))
+	}
+	c.Tag("duck:dictionary-header")
+}
+
+// seqCase: a sequence of queries with IDENTICAL column type vectors but different aliases / column order on the one
+// long-lived handler, all three formats each; then every query again on a fresh handler: the response to Q must not
+// depend on what was asked before.
+func seqCase(c *vh.Ctx, m *monitor, e *duckEnv, r *vh.Rand, i int) {
+	n := vh.Pick(r, []int{3, 7, 300})
+	base := []sqlExpr{safeDecimalExprs[i%len(safeDecimalExprs)], vh.Pick(r, lowCardExprs), vh.Pick(r, safeDecimalExprs)}
+	salts := []int{r.Intn(1000), r.Intn(1000), r.Intn(1000)}
+	type qd struct {
+		q    string
+		keys []string
+	}
+	var qs []qd
+	for v := 0; v < 2+r.Intn(2); v++ {
+		order := []int{0, 1, 2}
+		if v == 2 {
+			order = []int{2, 1, 0} // same multiset of types, other order
+		}
+		keys := make([]string, 3)
+		parts := make([]string, 3)
+		for j, o := range order {
+			keys[j] = base[o].key
+			parts[j] = fmt.Sprintf("%s AS %s", base[o].f(salts[o]), alias(r, j)) // same expressions => same types, new names
+		}
+		qs = append(qs, qd{fmt.Sprintf("SELECT %s FROM range(%d) t(i)", strings.Join(parts, ", "), n), keys})
+	}
+	type resp struct{ j, mp, ipc string }
+	first := make([]resp, len(qs))
+	canonD := func(d decoded) string { return strings.Join(d.cols, ",") + "#" + strings.Join(rowsCanon(d.rows), "/") }
+	for k, x := range qs {
+		jd, md, ic, ok := allFormats(c, m, e, e.app, x.q, x.keys, nil, "ipc")
+		if !ok {
+			return
+		}
+		first[k] = resp{canonD(jd), canonD(md), ic}
+	}
+	logger := zerolog.New(io.Discard).Level(zerolog.Disabled)
+	fresh := fiber.New(fiber.Config{DisableStartupMessage: true})
+	api.NewQueryHandler(e.db, e.be, logger, 0, 0).RegisterRoutes(fresh)
+	for k := len(qs) - 1; k >= 0; k-- { // other order on the fresh handler
+		x := qs[k]
+		jd, md, ic, ok := allFormats(c, m, e, fresh, x.q, x.keys, nil, "ipc")
+		if !ok {
+			return
+		}
+		seq := fmt.Sprintf("sequence=%q", func() []string {
+			o := make([]string, len(qs))
+			for a := range qs {
+				o[a] = short(qs[a].q, 200)
+			}
+			return o
+		}())
+		if canonD(jd) != first[k].j {
+			c.Fail("order-dependent-response:json", "the JSON response to a query depends on the queries served before it", seq)
+		}
+		if canonD(md) != first[k].mp {
+			c.Fail("order-dependent-response:msgpack", "the MessagePack response to a query depends on the queries served before it", seq)
+		}
+		if ic != first[k].ipc {
+			c.Fail("order-dependent-response:ipc", "the Arrow response to a query depends on the queries served before it", seq)
+		}
+	}
+	c.Tag("duck:sequence")
 }
